@@ -2,6 +2,7 @@ package props
 
 import (
 	"fmt"
+	"strings"
 
 	"utilcheck/lang"
 )
@@ -44,4 +45,25 @@ func (e *Env) langSubset(rule, site, construct string, sp *lang.Space, a, b *lan
 	}
 	e.S.Bad(rule, site, construct, fmt.Sprintf("L(%s) ⊄ L(%s): %q is in the first but not in the second", aName, bName, w), "", w)
 	return false
+}
+
+// skeleton reports an obligation: the top-level shape of regexp global pkg.name, with the content of each capture
+// abstracted, is want — a matched text is then the concatenation of its captures and the literals between them,
+// every capture participates exactly once (or exactly when its optional piece is present), in the written order.
+func (e *Env) skeleton(rule, pkg, name, want string) {
+	pat, ok := e.pattern(rule, pkg, name)
+	if !ok {
+		return
+	}
+	got, err := lang.Skeleton(pat)
+	switch {
+	case err != nil:
+		e.S.Unk(rule, pkg+"."+name, "skeleton", err.Error(), "")
+	case got == want:
+		e.S.Ok(rule, pkg+"."+name, "skeleton", "shape "+want+": the matched text is the concatenation of its captures and the literals between them", "")
+	case strings.Contains(got, "(?)") || strings.Contains(got, "!"):
+		e.S.Unk(rule, pkg+"."+name, "skeleton", "shape "+got+" (expected "+want+"): input is consumed outside the captures or a capture sits under an alternation/repetition; what the captures hold is not decided", "")
+	default:
+		e.S.Bad(rule, pkg+"."+name, "skeleton", "shape "+got+", the reader and the formatter assume "+want, "", "")
+	}
 }
